@@ -17,7 +17,7 @@ import (
 )
 
 func (p *CriteriaMixingParams) Spec_validate() {
-	if !utils.IsProbability(p.MixingRatio) {
+	if !utils.Spec_IsProbability(p.MixingRatio) {
 		panic(fmt.Errorf("mixingRatio should be in range [0,1]"))
 	}
 }
@@ -41,25 +41,25 @@ func (c *CriteriaMixing) Spec_Apply(
 	props *model.BiasProps,
 	listener *model.BiasListener,
 ) *model.BiasedResult {
-	if current.Criteria.Len() < 2 {
+	if current.Criteria.Spec_Len() < 2 {
 		return &model.BiasedResult{DMP: current}
 	}
-	parsedProps := parseProps(props)
+	parsedProps := Spec_parseProps(props)
 	generator := c.generatorSource(parsedProps.RandomSeed)
-	c2m := selectCriteriaToMix(current, generator)
-	allAlternatives := current.AllAlternatives()
-	referenceCriterionProvider := c.referenceCriteriaManager.ForParams(props)
-	referenceCriterion := referenceCriterion(current, listener, referenceCriterionProvider)
-	targetValRange := model.ValuesRangeWithGroundZero(&allAlternatives, referenceCriterion)
-	mixResult := c2m.mix(&allAlternatives, targetValRange, parsedProps)
-	newCriterion := c2m.criterion(&current.Criteria, targetValRange)
+	c2m := Spec_selectCriteriaToMix(current, generator)
+	allAlternatives := current.Spec_AllAlternatives()
+	referenceCriterionProvider := c.referenceCriteriaManager.Spec_ForParams(props)
+	referenceCriterion := Spec_referenceCriterion(current, listener, referenceCriterionProvider)
+	targetValRange := model.Spec_ValuesRangeWithGroundZero(&allAlternatives, referenceCriterion)
+	mixResult := c2m.Spec_mix(&allAlternatives, targetValRange, parsedProps)
+	newCriterion := c2m.Spec_criterion(&current.Criteria, targetValRange)
 	criterionParams := (*listener).OnCriterionAdded(&newCriterion, referenceCriterion, current.MethodParameters, generator)
 	newMethodParams := (*listener).Merge(current.MethodParameters, criterionParams)
-	newAlternatives := updateAlternatives(allAlternatives, newCriterion, mixResult)
-	newParams := updateDMParams(current, newAlternatives, newCriterion, newMethodParams)
+	newAlternatives := Spec_updateAlternatives(allAlternatives, newCriterion, mixResult)
+	newParams := Spec_updateDMParams(current, newAlternatives, newCriterion, newMethodParams)
 	return &model.BiasedResult{
 		DMP:   &newParams,
-		Props: prepareMixedCriterion(c2m, mixResult, newCriterion, criterionParams),
+		Props: Spec_prepareMixedCriterion(c2m, mixResult, newCriterion, criterionParams),
 	}
 }
 
@@ -70,15 +70,15 @@ func Spec_updateDMParams(
 	newMethodParams model.MethodParameters,
 ) model.DecisionMakingParams {
 	return model.DecisionMakingParams{
-		NotConsideredAlternatives: *model.UpdateAlternatives(&params.NotConsideredAlternatives, newAlternatives),
-		ConsideredAlternatives:    *model.UpdateAlternatives(&params.ConsideredAlternatives, newAlternatives),
-		Criteria:                  params.Criteria.Add(&newCriterion),
+		NotConsideredAlternatives: *model.Spec_UpdateAlternatives(&params.NotConsideredAlternatives, newAlternatives),
+		ConsideredAlternatives:    *model.Spec_UpdateAlternatives(&params.ConsideredAlternatives, newAlternatives),
+		Criteria:                  params.Criteria.Spec_Add(&newCriterion),
 		MethodParameters:          newMethodParams,
 	}
 }
 
 func Spec_updateAlternatives(allAlternatives []model.AlternativeWithCriteria, newCriterion model.Criterion, mixResult *mixResult) *[]model.AlternativeWithCriteria {
-	return model.AddCriterionToAlternatives(&allAlternatives, &newCriterion, func(alt *model.AlternativeWithCriteria) model.Weight {
+	return model.Spec_AddCriterionToAlternatives(&allAlternatives, &newCriterion, func(alt *model.AlternativeWithCriteria) model.Weight {
 		return mixResult.result[alt.Id]
 	})
 }
@@ -128,8 +128,8 @@ func (c *criteriaToMix) Spec_mix(
 	targetValuesRange *utils.ValueRange,
 	props *CriteriaMixingParams,
 ) *mixResult {
-	c1Values := model.RescaleCriterion(&c.c1, allAlternatives, targetValuesRange)
-	c2Values := model.RescaleCriterion(&c.c2, allAlternatives, targetValuesRange)
+	c1Values := model.Spec_RescaleCriterion(&c.c1, allAlternatives, targetValuesRange)
+	c2Values := model.Spec_RescaleCriterion(&c.c2, allAlternatives, targetValuesRange)
 	resultValues := make(model.Weights, len(c2Values))
 	for a, c1Value := range c1Values {
 		c2Value, ok := c2Values[a]
@@ -148,7 +148,7 @@ func (c *criteriaToMix) Spec_mix(
 
 func (c *criteriaToMix) Spec_criterion(currentCriteria *model.Criteria, valRange *utils.ValueRange) model.Criterion {
 	return model.Criterion{
-		Id:          currentCriteria.NotUsedName("__" + c.c1.Id + "+" + c.c2.Id + "__"),
+		Id:          currentCriteria.Spec_NotUsedName("__" + c.c1.Id + "+" + c.c2.Id + "__"),
 		Type:        model.Gain,
 		ValuesRange: valRange,
 	}
@@ -156,7 +156,7 @@ func (c *criteriaToMix) Spec_criterion(currentCriteria *model.Criteria, valRange
 
 func Spec_parseProps(props *model.BiasProps) *CriteriaMixingParams {
 	parsedProps := CriteriaMixingParams{MixingRatio: 0.5}
-	utils.DecodeToStruct(*props, &parsedProps)
-	parsedProps.validate()
+	utils.Spec_DecodeToStruct(*props, &parsedProps)
+	parsedProps.Spec_validate()
 	return &parsedProps
 }
